@@ -1,1 +1,18 @@
-fn main(){}
+//! sim_io — simulator for the I/O-facing and single-client properties (C05, C12, C15).
+//!
+//! usage: sim_io <C05|C12|C15> [--tier quick|thorough] [--runs N] [--seed S] [--workers W]
+//!        sim_io <id> --replay <file>
+
+mod c15;
+
+use simcore::{harness_error, Args};
+
+fn main() {
+    let args = Args::from_env();
+    simcore::panics::install_hook();
+    let rc = match args.positional(0) {
+        Some("C15") => c15::main(&args),
+        other => harness_error(&format!("sim_io: unknown property {other:?}")),
+    };
+    std::process::exit(rc);
+}
